@@ -8,6 +8,7 @@
 import Saltpack.Proofs.RoundTripEnc
 import Saltpack.Proofs.RoundTripSig
 import Saltpack.Proofs.MsgpackRT
+import Saltpack.Proofs.PlanLemmas
 
 namespace Saltpack.Proofs
 open Saltpack Saltpack.Encrypt Saltpack.Msgpack
@@ -23,13 +24,18 @@ structure ValidPlan (v : Version) (plan : List (Bytes × Bool)) : Prop where
 /-- the Go sender's own plan is one of them -/
 theorem chunkPlan_valid (v : Version) (hv : v = v1 ∨ v = v2) (bs : Nat) (hb : 0 < bs) (pt : Bytes) :
     ValidPlan v (chunkPlan v bs pt) := by
-  sorry
+  have _ := hv
+  refine ⟨chunkPlan_final v bs pt, ?_, ?_⟩
+  · rintro rfl
+    exact chunkPlan_empty_v1 bs hb pt
+  · rintro rfl p hp he
+    exact (chunkPlan_empty_v2 bs hb pt).2 ((chunkPlan_empty_v2 bs hb pt).1 p hp he)
 
 /-- the sender model with its own plan is the special case -/
 theorem sealPackets_eq_plan (P : Prims) (bs : Nat) (v : Version) (sender : Option Bytes) (rs : List Recipient)
     (eph pk pt : Bytes) :
     sealPackets P bs v sender rs eph pk pt = sealPacketsPlan P v sender rs eph pk (chunkPlan v bs pt) := by
-  sorry
+  rfl
 
 /-- **encryption, any chunking** (cf. `enc_roundtrip`) -/
 theorem enc_roundtrip_plan (P : Prims) (hP : P.Lawful)
@@ -47,7 +53,30 @@ theorem enc_roundtrip_plan (P : Prims) (hP : P.Lawful)
     ∃ mki, Decrypt.openAll P knownMajor (faithfulKeyring P [sk]) (.ok hb h) ⟨blks.map some, .eof⟩ =
         .ok (mki, (plan.map (·.1)).flatten) ∧
       mki.senderKey = P.boxPub (sender.getD eph) ∧ mki.senderIsAnon = sender.isNone ∧ mki.receiverKey = sk := by
-  sorry
+  obtain ⟨hcr, hhdr, mks, hm, hbl⟩ := PlanL.sealPacketsPlan_inv P v sender rs eph payloadKey plan h hb blks hseal
+  obtain ⟨_, hnd⟩ := checkReceivers_inv hcr
+  have _ := hblocks
+  have hgetD : rs.getD i default = rs[i] := by simp [List.getD_eq_getElem?_getD, hi]
+  rw [hgetD] at hsk
+  obtain ⟨mks', hm', _, hmp⟩ := macKeysSender_spec P hv (sender.getD eph) eph (P.hash hb) rs 0
+  rw [hm] at hm'
+  cases hm'
+  obtain ⟨mk, hmk, hmki⟩ := hmp i hi
+  rw [Nat.zero_add] at hmk
+  obtain ⟨log, hph⟩ := processHeader_roundtrip P hP hv sender rs eph payloadKey hpk hnamed hpub hnd i hi sk hsk
+    hns h hhdr (P.hash hb) mk hmk
+  have hrun := PlanL.run_roundtrip_plan P hP hv plan hplan.final hplan.empty_v1 hplan.empty_v2
+    { version := v, payloadKey := payloadKey, headerHash := P.hash hb, macKey := mk, position := i,
+      mki := { senderKey := P.boxPub (sender.getD eph), senderIsAnon := sender.isNone,
+               receiverKey := sk, receiverIsAnon := rs[i].hidden,
+               namedReceivers := (rs.filter (fun r => !r.hidden)).map (·.pub),
+               numAnonReceivers := if rs[i].hidden then (rs.filter (·.hidden)).length else 0 } }
+    rfl mks hmki blks hbl
+  refine ⟨{ senderKey := P.boxPub (sender.getD eph), senderIsAnon := sender.isNone,
+             receiverKey := sk, receiverIsAnon := rs[i].hidden,
+             namedReceivers := (rs.filter (fun r => !r.hidden)).map (·.pub),
+             numAnonReceivers := if rs[i].hidden then (rs.filter (·.hidden)).length else 0 }, ?_, rfl, rfl, rfl⟩
+  simp only [Decrypt.openAll, Decrypt.openStream, hph, hrun]
 
 /-- **attached signatures, any chunking, any minor version** -/
 theorem sign_roundtrip_plan (P : Prims) (hP : P.Lawful)
@@ -58,7 +87,16 @@ theorem sign_roundtrip_plan (P : Prims) (hP : P.Lawful)
     (hs : Sign.attachedPacketsPlan P v minor signer nonce plan = .ok (h, hb, blks)) :
     Sign.verifyAll P knownMajor kr (.ok hb h) ⟨blks.map some, .eof⟩ =
       .ok (P.sigPub signer, (plan.map (·.1)).flatten) := by
-  sorry
+  obtain ⟨hh, _, hblk⟩ := PlanL.attachedPacketsPlan_inv P v minor signer nonce plan h hb blks hs
+  have hval := PlanL.sign_validate_ok_minor v hv minor (P.sigPub signer) nonce
+  have hmaj : (v.major != 1 && v.major != 2) = false := by rcases hv with rfl | rfl <;> decide
+  have hrun := PlanL.sign_run_plan P hP v hv minor signer (P.hash hb) plan hplan.final hplan.empty_v1
+    hplan.empty_v2 blks hblk
+  subst hh
+  unfold Sign.verifyAll Sign.verifyStream
+  simp only [hval]
+  simp only [Sign.header, hk, hmaj, hrun]
+  rfl
 
 /-- **signcryption, any chunking** (box recipient) -/
 theorem sc_roundtrip_plan (P : Prims) (hP : P.Lawful)
@@ -74,57 +112,81 @@ theorem sc_roundtrip_plan (P : Prims) (hP : P.Lawful)
         Decrypt.kidOf (h.receivers.getD j default)) :
     Signcrypt.openAll P (faithfulKeyring P [sk]) none (.ok hb h) ⟨blks.map some, .eof⟩ =
       .ok (sender.map P.sigPub, (plan.map (·.1)).flatten) := by
-  sorry
+  apply PlanL.sc_open_found_plan P hP sender rs eph payloadKey plan hplan.final (hplan.empty_v2 rfl) hsender
+    hblocks h hb blks hseal
+  obtain ⟨hh, _, _⟩ := PlanL.sc_sealPacketsPlan_inv P sender rs eph payloadKey plan h hb blks hseal
+  subst hh
+  have hrsi : rs[i]? = some (.box (P.boxPub sk)) := by
+    rw [← hsk, List.getD_eq_getElem?_getD, List.getElem?_eq_getElem hi]; rfl
+  have htb : Signcrypt.tryBox P [Signcrypt.derivedKeyFromBoxKeys P (P.boxPub eph) sk]
+      ((Signcrypt.receiverEntries P eph payloadKey rs 0).zipIdx 0) = .ok (some payloadKey) := by
+    apply RTSig.tryBox_found P _ payloadKey _ 0 i
+    · intro j r hj hr
+      have := hnc j hj
+      rw [RTSig.sc_header_receivers, List.getD_eq_getElem?_getD, hr] at this
+      simp only [Option.getD_some] at this
+      simp [Signcrypt.tryBoxOne, this]
+    · refine ⟨_, by rw [RTSig.receiverEntries_getElem?, hrsi]; rfl, ?_⟩
+      simp only [Signcrypt.receiverEntry, RTSig.derivedKey_comm P hP sk eph, Nat.zero_add]
+      simp [Signcrypt.tryBoxOne, Decrypt.kidOf, hP.sb_open_seal, hpk]
+  unfold RTSig.scFindKey
+  simp only [RTSig.sc_header_receivers, faithfulKeyring, List.map_cons, List.map_nil]
+  rw [htb]
 
 /-! ### forward compatibility: unknown minor versions, extra trailing elements -/
 
 /-- the shipped validator looks at the major version only -/
 theorem knownMajor_ignores_minor (ma mi mi' : Int) : knownMajor ⟨ma, mi⟩ = knownMajor ⟨ma, mi'⟩ := by
-  sorry
+  rfl
 
 theorem viewVersion_extras (ma mi : Int) (ex : List Val) :
     viewVersion (.arr ([.int ma, .int mi] ++ ex)) = some ⟨ma, mi⟩ := by
-  sorry
+  rfl
 
 /-- extra trailing elements in the header are ignored -/
 theorem viewEncHeader_extras (h : EncHeader) (ex : List Val) :
     (match h.toVal with
      | .arr fields => viewEncHeader (.arr (fields ++ ex))
      | _ => none) = some h := by
-  sorry
+  obtain ⟨fn, ⟨ma, mi⟩, ty, eph, ssb, rs⟩ := h
+  simp [viewEncHeader, EncHeader.toVal, Version.toVal, viewBytes, viewVersion, viewInt, viewList_recvKeys]
 
 theorem viewSigHeader_extras (h : SigHeader) (ex : List Val) :
     (match h.toVal with
      | .arr fields => viewSigHeader (.arr (fields ++ ex))
      | _ => none) = some h := by
-  sorry
+  obtain ⟨fn, ⟨ma, mi⟩, ty, pk, n⟩ := h
+  simp [viewSigHeader, SigHeader.toVal, Version.toVal, viewBytes, viewVersion, viewInt]
 
 /-- …in every recipient pair… -/
 theorem viewRecvKeys_extras (r : RecvKeys) (ex : List Val) :
     viewRecvKeys (.arr ([optBin r.kid, .bin r.box] ++ ex)) = some r := by
-  sorry
+  obtain ⟨kid, box⟩ := r
+  cases kid <;> rfl
 
 /-- …and in every payload packet -/
 theorem viewEncBlock_v2_extras (auths : List Bytes) (ct : Bytes) (f : Bool) (ex : List Val)
     (ha : auths ≠ []) (hl : ∀ a ∈ auths, a.length = 32) :
     viewEncBlock 2 (.arr ([.bool f, .arr (auths.map .bin), .bin ct] ++ ex)) = some ⟨auths, ct, f⟩ := by
-  sorry
+  have _ := ha
+  simp [viewEncBlock, viewBool, viewBytes, viewList_auth auths hl]
 
 theorem viewEncBlock_v1_extras (auths : List Bytes) (ct : Bytes) (ex : List Val)
     (ha : auths ≠ []) (hl : ∀ a ∈ auths, a.length = 32) :
     viewEncBlock 1 (.arr ([.arr (auths.map .bin), .bin ct] ++ ex)) = some ⟨auths, ct, false⟩ := by
-  sorry
+  have _ := ha
+  simp [viewEncBlock, viewBytes, viewList_auth auths hl]
 
 theorem viewSigncryptBlock_extras (ct : Bytes) (f : Bool) (ex : List Val) :
     viewSigncryptBlock (.arr ([.bin ct, .bool f] ++ ex)) = some ⟨ct, f⟩ := by
-  sorry
+  rfl
 
 theorem viewSigBlock_v2_extras (sig chunk : Bytes) (f : Bool) (ex : List Val) :
     viewSigBlock 2 (.arr ([.bool f, .bin sig, .bin chunk] ++ ex)) = some ⟨sig, chunk, f⟩ := by
-  sorry
+  simp [viewSigBlock, viewBool, viewBytes]
 
 theorem viewSigBlock_v1_extras (sig chunk : Bytes) (ex : List Val) :
     viewSigBlock 1 (.arr ([.bin sig, .bin chunk] ++ ex)) = some ⟨sig, chunk, false⟩ := by
-  sorry
+  simp [viewSigBlock, viewBytes]
 
 end Saltpack.Proofs
